@@ -8,6 +8,8 @@ import (
 
 	sdk "github.com/cosmos/cosmos-sdk/types"
 
+	liqtypes "github.com/comdex-official/comdex/x/liquidity/types"
+
 	"verif/ev"
 	"verif/sim"
 )
@@ -18,8 +20,8 @@ import (
 type c20World struct {
 	name     string
 	c        *sim.Chain
-	run      func(n int)                           // n workload steps on c (the tape records them)
-	resume   func()                                // called after the original chain began its next block
+	run      func(n int) // n workload steps on c (the tape records them)
+	resume   func()      // called after the original chain began its next block
 	counters func(c *sim.Chain, ctx sdk.Context) map[string]uint64
 }
 
@@ -97,7 +99,7 @@ func c20Generic(t *testing.T, rec *ev.Rec, w c20World, queries []c20Query, contS
 	tape := c.Tape
 	c.Tape = nil
 	for i, rc := range tape.Recs {
-		res, isTx := imp.ReplayRec(rc)
+		res, isTx := c16ReplayRec(imp, rc)
 		if !isTx {
 			if rc.Kind == "block" {
 				rec.Count("continuation_blocks", 1)
@@ -142,6 +144,7 @@ func c20LiqLend(t *testing.T, rec *ev.Rec, round int, queries []c20Query) {
 			}
 		}
 		runBlocks(ev.Pick(50, 150))
+		c20FarmPrelude(rec, w)
 		c20Generic(t, rec, c20World{name: "liquidity", c: w.c, run: func(n int) { runBlocks(n / 4) }, resume: func() { w.committed = false },
 			counters: func(c *sim.Chain, ctx sdk.Context) map[string]uint64 {
 				out := map[string]uint64{}
@@ -173,5 +176,149 @@ func c20LiqLend(t *testing.T, rec *ev.Rec, round int, queries []c20Query) {
 				return map[string]uint64{"lend/lend-id": k.GetUserLendIDCounter(ctx), "lend/borrow-id": k.GetUserBorrowIDCounter(ctx), "lend/pool-id": k.GetPoolID(ctx), "lend/pair-id": k.GetLendPairID(ctx)}
 			}}, queries, ev.Pick(150, 500))
 		e.c.Close()
+	}
+	// ---- lend universe with the liquidation sweep: lend-initiated locked vaults and running auctions in the exported state
+	if c20Mine(0) {
+		e := c08Setup(t, ev.NewScratch(), rng("C20-lendliq-setup", variant), 0, variant%3, true)
+		e.rnd = rng("C20-lendliq", variant)
+		run := func(n int) {
+			for i := 0; i < n && !e.panicked; i++ {
+				if e.rnd.Intn(100) < 30 {
+					e.blockStep()
+				} else {
+					e.txStep()
+				}
+			}
+		}
+		// run until the sweep has seized something and its auction is still running (bounded)
+		for i := 0; i < 8; i++ {
+			run(ev.Pick(250, 600))
+			ctx := e.c.Ctx()
+			// the lend universe has no CDP products: every locked vault here was initiated by the lend sweep
+			nl, na := len(e.c.App.NewliqKeeper.GetLockedVaults(ctx)), len(e.c.App.NewaucKeeper.GetAuctions(ctx))
+			if nl > 0 && na > 0 {
+				rec.Count("lendliq_states_with_locked_vault_and_auction", 1)
+				break
+			}
+		}
+		rec.Count("lendliq_locked_vaults_at_export", int64(len(e.c.App.NewliqKeeper.GetLockedVaults(e.c.Ctx()))))
+		rec.Count("lendliq_auctions_at_export", int64(len(e.c.App.NewaucKeeper.GetAuctions(e.c.Ctx()))))
+		c20Generic(t, rec, c20World{name: "lend-liquidation", c: e.c, run: run,
+			counters: func(c *sim.Chain, ctx sdk.Context) map[string]uint64 {
+				k := c.App.LendKeeper
+				return map[string]uint64{"lend/lend-id": k.GetUserLendIDCounter(ctx), "lend/borrow-id": k.GetUserBorrowIDCounter(ctx),
+					"liquidationsV2/locked-vault-id": c.App.NewliqKeeper.GetLockedVaultID(ctx), "auctionsV2/auction-id": c.App.NewaucKeeper.GetAuctionID(ctx)}
+			}}, queries, ev.Pick(150, 500))
+		e.c.Close()
+	}
+	// ---- rewards universe: gauges mid-way (plain, master/child, swap-fee), epoch clocks, farmers with queued and active
+	// coins; once without any programme (so that the continuation is compared) and once with the locker programme
+	for k, withLocker := range []bool{false, true} {
+		if !c20Mine(1 + k) {
+			continue
+		}
+		sc := variant*3 + 1
+		name := "rewards-gauges"
+		if withLocker {
+			sc = variant * 3
+			name = "rewards-gauges+locker-programme"
+		}
+		e := c19NewEnv(t, ev.NewScratch(), rng("C20-rewards-setup", variant, k), sc, []int{3, 5, 8}[variant%3], []int{0, 3, 1}[variant%3])
+		e.rnd = rng("C20-rewards", variant, k)
+		for i := 0; i < 3; i++ {
+			e.createGauge(false)
+		}
+		run := func(n int) {
+			for b := 0; b < n && !e.panicked; b++ {
+				for i := e.rnd.Intn(5); i > 0; i-- {
+					e.action()
+				}
+				e.step(e.pickDt())
+			}
+		}
+		run(ev.Pick(40, 120))
+		ctx := e.c.Ctx()
+		for _, g := range e.c.App.Rewardskeeper.GetAllGauges(ctx) {
+			rec.Count("rewards_gauges_at_export", 1)
+			if g.IsActive && g.TriggeredCount > 0 && g.TriggeredCount < g.TotalTriggers {
+				rec.Count("rewards_gauges_midway_at_export", 1)
+			}
+		}
+		c20Generic(t, rec, c20World{name: name, c: e.c, run: func(n int) { run(n / 5) }, counters: c20RewardCounters}, queries, ev.Pick(120, 400))
+		e.c.Close()
+	}
+	// ---- all four kinds of external reward programme, part-way through their durations
+	if c20Mine(3) {
+		e := c19ProgNewEnv(t, ev.NewScratch(), rng("C20-programmes-setup", variant), variant*2)
+		e.rnd = rng("C20-programmes", variant)
+		e.run(variant*2, ev.Pick(12, 40))
+		for _, p := range c19Programmes(e.c, e.c.Ctx()) {
+			if p.active {
+				rec.Count("reward_programmes_active_at_export_"+p.kind, 1)
+			}
+		}
+		c20Generic(t, rec, c20World{name: "reward-programmes", c: e.c, run: func(n int) {
+			for b := 0; b < n/5 && !e.panicked; b++ {
+				for i := e.rnd.Intn(5); i > 0; i-- {
+					e.action()
+				}
+				e.step(e.pickDt())
+			}
+		}, counters: c20RewardCounters}, queries, ev.Pick(120, 400))
+		e.c.Close()
+	}
+}
+
+// c20Mine: the four universes added later are spread over the shards in the quick tier (two per shard).
+func c20Mine(k int) bool {
+	if ev.Tier() != "quick" || ev.NShards() < 2 {
+		return true
+	}
+	return k%2 == ev.ShardNo()%2
+}
+
+func c20RewardCounters(c *sim.Chain, ctx sdk.Context) map[string]uint64 {
+	k := c.App.Rewardskeeper
+	return map[string]uint64{"rewards/gauge-id": k.GetGaugeID(ctx), "rewards/locker-programme-id": k.GetExternalRewardsLockersID(ctx), "rewards/vault-programme-id": k.GetExternalRewardsVaultID(ctx),
+		"rewards/lend-programme-id": k.GetExternalRewardsLendID(ctx), "rewards/stable-mint-programme-id": k.GetExternalRewardsStableVault(ctx), "rewards/programme-epoch-id": k.GetEpochTimeID(ctx)}
+}
+
+// c20FarmPrelude: before the export every liquidity provider holds farmed pool coins in several pools, part of them
+// already active (queued more than a day ago) and part still queued.
+func c20FarmPrelude(rec *ev.Rec, w *liqWorld) {
+	k := w.c.App.LiquidityKeeper
+	farmAll := func() {
+		for _, a := range w.lps {
+			for _, app := range w.apps {
+				for _, pool := range k.GetAllPools(w.ctx(), app) {
+					bal := w.bal(a.Addr, pool.PoolCoinDenom)
+					if pool.Disabled || !bal.IsPositive() {
+						continue
+					}
+					amt := bal.QuoRaw(3).AddRaw(1)
+					w.deliver(a, "farm", liqtypes.NewMsgFarm(pool.AppId, pool.Id, a.Addr, sdk.NewCoin(pool.PoolCoinDenom, amt)), fmt.Sprintf("app=%d pool=%d poolcoin=%s (export prelude)", pool.AppId, pool.Id, amt))
+				}
+			}
+		}
+	}
+	farmAll()
+	w.nextBlock(25 * time.Hour)
+	w.nextBlock(6 * time.Second)
+	farmAll()
+	w.nextBlock(6 * time.Second)
+	for _, a := range w.lps {
+		both := 0
+		for _, app := range w.apps {
+			for _, pool := range k.GetAllPools(w.ctx(), app) {
+				act, q := w.farmed(a, pool)
+				if act.IsPositive() && q.IsPositive() {
+					both++
+				}
+			}
+		}
+		rec.Count("farm_positions_active_and_queued_at_export", int64(both))
+		if both >= 2 {
+			rec.Count("farmers_active_and_queued_in_several_pools_at_export", 1)
+		}
 	}
 }
